@@ -16,6 +16,7 @@ macro_rules! dispatch {
   ($id:expr, $f:ident, $($arg:expr),*) => {
     match $id {
       "C01" => $f::<props::c01::C01>($($arg),*),
+      "C02" => $f::<props::c02::C02>($($arg),*),
       "C03" => $f::<props::c03::C03>($($arg),*),
       "C04" => $f::<props::c04::C04>($($arg),*),
       "C05" => $f::<props::c05::C05>($($arg),*),
